@@ -10,13 +10,13 @@ CRATES = ["rlib_fft"]
 RELEASE = True
 ARMED = True
 ENGINES = ["E1", "E3", "E5"]
-TECHNIQUE = "typestate over path events (tables SIZED(k) before any table read, stride divisor equal to the sized argument), event-order rule for scratch re-initialisation, store-shape rule (place = place + ..) for caller destinations incl. closure bodies, who-may-write rule for the plan tables, result-shape terms"
+TECHNIQUE = "typestate over path events (tables SIZED(k) before any table read, stride divisor equal to the sized argument), event-order rule for scratch re-initialisation, store-shape rule (place = place + ..) for caller destinations incl. closure bodies, who-may-write rule for the plan tables, result-shape terms, operand-type rule on MIR multiplications"
 LEVEL_TEXT = (
     "Decides the structural part of 'the result does not depend on what the object computed earlier': every read of the plan tables "
     "(w, reversed) in a public method or in a closure it creates is preceded on every path by update_n(k) (directly or as the first "
     "action of fft_internal), and a stride max_n/x read from the tables uses x == k; every scratch buffer is cleared and zero-resized "
     "before use; only new/update_n write the tables and update_n never shrinks; the *_into variants only ever add into the caller's "
-    "destination; multiply returns an empty vector iff an input is empty and otherwise a.len()+b.len()-1 elements. Numerical "
+    "destination; multiply returns an empty vector iff an input is empty and otherwise a.len()+b.len()-1 elements; coefficients are never multiplied in i32. Numerical "
     "exactness inside the precision envelope and the packed-transform algebra are NOT decided (floating-point error bounds)."
 )
 LEVEL_NOTE = "trusted: rustc MIR, exporter, std axioms; Float implementations of the num_traits crate; numerics (rounding) are outside the claim"
@@ -28,6 +28,7 @@ EXPLANATION = (
     "included) is place = place + value or AddAssign; wrappers pass zero-filled destinations of the documented length. P4 single "
     "writer: w/reversed are mutably borrowed only in new/update_n; update_n returns early when n <= len and asserts a power of two. "
     "P5 shape: multiply returns vec![] iff a or b is empty, else from_elem(0, a.len()+b.len()-1); multiply_into takes at most that many. "
+    "P6 integer side: no i32*i32 product in the crate (a coefficient product reaches 1e12 inside the envelope); inputs are converted with from_i32. "
     "NOT decided: exactness of the convolution (floating point), the packed real-FFT algebra, the butterfly strides inside fft_internal."
 )
 UNDECIDED = [
@@ -42,6 +43,8 @@ FIXTURES = [
     ("c04_bad_stride_other_size", "bad", ["P1"]),
     ("c04_bad_no_clear", "bad", ["P2"]),
     ("c04_bad_into_overwrites", "bad", ["P3"]),
+    ("c04_bad_i32_fastpath", "bad", ["P6"]),
+    ("c04_good_i64_fastpath", "good", []),
     ("c04_bad_inv_into_assign_first", "bad", ["P3"]),
     ("c04_bad_update_shrinks", "bad", ["P4"]),
     ("c04_bad_multiply_len", "bad", ["P5"]),
@@ -70,6 +73,7 @@ def check(col, prog, tier, profile, fixture=None):
     col.rule("P3" + sfx, "*_into only add into the caller's destination; wrappers pass zeroed destinations", floor=7)
     col.rule("P4" + sfx, "w/reversed written only by new/update_n; update_n never shrinks", floor=3)
     col.rule("P5" + sfx, "multiply: empty iff an input is empty, else a.len()+b.len()-1 results", floor=3)
+    col.rule("P6" + sfx, "integer coefficients are converted to the float type, never multiplied in a 32-bit integer type", floor=2)
 
     def table_of(place):
         """'w' / 'reversed' when the place is (inside) one of the plan tables of self"""
@@ -379,3 +383,21 @@ def check(col, prog, tier, profile, fixture=None):
         col.ok("P5" + sfx, b.loc(), "%s|take-len" % fk(b), "at most a.len()+b.len()-1 results are added")
     else:
         col.violation("P5" + sfx, "%s|take-len" % fk(b), b.loc(), "multiply_into must add at most a.len()+b.len()-1 coefficients")
+
+    # ---------------- P6: integer coefficients are converted, never multiplied in their narrow type
+    # (inside the envelope max|coef|^2 * min(len) <= 1e12 a product of two coefficients reaches 1e12 > 2^31)
+    narrow = ("i32",)  # the coefficient type of multiply/multiply_into
+    conv = 0
+    for b in crate.bodies:
+        if b.path.startswith("precision") or "precision::" in b.path:
+            continue
+        for bb, idx, st_ in b.statements():
+            if st_["k"] != "assign" or st_["rv"]["k"] != "bin":
+                continue
+            rv = st_["rv"]
+            if rv["op"].startswith("Mul") and rv.get("opty") in narrow and not (rv["a"]["k"] == "const" and rv["b"]["k"] == "const"):
+                col.violation("P6" + sfx, "%s|narrow-product" % fk(b), b.loc(bb, idx), "%s multiplies in %s: inside the published envelope (|coef| up to 1e6 for a length-1 operand) a product of two coefficients exceeds the %s range - panic in debug, silent wrap in release; convert (F::from_i32 / as i64) before multiplying" % (b.path, rv.get("opty"), rv.get("opty")))
+        for bb, t in b.calls():
+            if (t["fn"].get("name") or "") == "from_i32":
+                conv += 1
+                col.ok("P6" + sfx, b.loc(bb), "%s|from_i32|%d" % (fk(b), conv), "input coefficient converted to the float type before any arithmetic")
